@@ -1,5 +1,6 @@
 CONSTANTS
   MaxLen = 4
+  NameLen = 4
   MaxSteps = 3
 INIT Init
 NEXT Next
